@@ -26,10 +26,13 @@ class _MdPolicy(pythia.Policy):
 
   def suggest(self, request):
     delta = vz.MetadataDelta()
-    for target, ns, key, value in _PLAN.pop(0):
+    plan = _PLAN.pop(0)
+    empty = bool(plan) and plan[0] == 'NO-SUGGESTIONS'
+    for target, ns, key, value in (plan[1:] if empty else plan):
       md = delta.on_study if target == 0 else delta.on_trials[target]
       md.abs_ns(vz.Namespace(ns))[key] = value
-    return pythia.SuggestDecision([vz.TrialSuggestion({'x': 0.5}) for _ in range(request.count)], metadata=delta)
+    n = 0 if empty else request.count       # an exhausted algorithm still reports its state
+    return pythia.SuggestDecision([vz.TrialSuggestion({'x': 0.5}) for _ in range(n)], metadata=delta)
 
   def early_stop(self, request):
     return pythia.EarlyStopDecisions()
@@ -92,6 +95,17 @@ def _algo_delta(sql, t1, n1, k1, t2, n2, k2, args):
       # worker 'n<r>' holds nothing: the algorithm is consulted
       op = sv.SuggestTrials(vs.SuggestTrialsRequest(parent=S, suggestion_count=1, client_id='n%d' % r))
       ok = ok and op.done and not op.HasField('error')
+      got = _md_dict(svc.abstract(sv))
+      for target in (0, 1, 2):
+        ok = ok and got[target] == want[target]
+    # round 3: the algorithm has nothing to suggest but still sends a delta (its updated state): stored all the same
+    if ok:
+      target, ns, key = w[1]
+      _PLAN.append(['NO-SUGGESTIONS', (target, _NS[ns], _KEYS[key], 'algo-exhausted'), (0, ('algo',), 'exhausted', 'yes')])
+      want[target][(vz.Namespace(_NS[ns]).encode(), _KEYS[key])] = 'algo-exhausted'
+      want[0][(vz.Namespace(('algo',)).encode(), 'exhausted')] = 'yes'
+      op = sv.SuggestTrials(vs.SuggestTrialsRequest(parent=S, suggestion_count=1, client_id='n9'))
+      ok = ok and op.done
       got = _md_dict(svc.abstract(sv))
       for target in (0, 1, 2):
         ok = ok and got[target] == want[target]
